@@ -33,7 +33,20 @@ def run_one(prop, tier, seed, src=None, write=True, out=sys.stdout):
             selfval.run(prop, mod, ctx, s)
 
     src = (src or core.Src(core.REPO)).variant(bool(getattr(mod, "CANON", False)))
-    return core.run_property(prop, fn, tier, seed, src=src, write=write, out=out, mod=mod)
+    # a runaway analysis must end as an analysis error, never hang the caller
+    import signal
+
+    def _alarm(signum, frame):
+        raise core.AnalysisError(f"the analysis of {prop} did not finish within its time budget")
+
+    limit = 300 if tier == "thorough" else 120
+    old = signal.signal(signal.SIGALRM, _alarm)
+    signal.alarm(limit)
+    try:
+        return core.run_property(prop, fn, tier, seed, src=src, write=write, out=out, mod=mod)
+    finally:
+        signal.alarm(0)
+        signal.signal(signal.SIGALRM, old)
 
 
 def main(argv=None):
